@@ -25,10 +25,12 @@ man = dict(
     hooks=dict(guard="ANKIT76_AD_AFQMC_VERIF", enable="export ANKIT76_AD_AFQMC_VERIF=1 (set by ./check); hooks are inert unless the harness pre-seeds the prop_data keys",
                baseline_off_cmd="cd /repo && env -u ANKIT76_AD_AFQMC_VERIF /venv/bin/python -m pytest -ra -q -p no:cacheprovider --timeout=900 --continue-on-collection-errors",
                source_commits=json.load(open("hooks.json"))["source_commits"], add_only=True),
-    engines=[dict(name="pyvc", path="vc/pyvc", serves_properties=[c["property_id"] for c in checks if c["engine"] in ("pyvc", "pyvc+jxvc")],
+    engines=[dict(name="pyvc", path="vc/pyvc", serves_properties=[c["property_id"] for c in checks if "pyvc" in c["engine"]],
                   kind_free_text="Engine A: python ast of the real source -> symbolic execution (decision replay) -> z3/cvc5 verification conditions, sidecar contracts in contracts/"),
-             dict(name="jxvc", path="vc/jxvc", serves_properties=[c["property_id"] for c in checks if c["engine"] in ("jxvc", "pyvc+jxvc")],
-                  kind_free_text="Engine B: jax.make_jaxpr of the real functions -> exact arithmetic over Q(i)(x) -> ring identities against Fock-space spec functions")],
+             dict(name="jxvc", path="vc/jxvc", serves_properties=[c["property_id"] for c in checks if "jxvc" in c["engine"]],
+                  kind_free_text="Engine B: jax.make_jaxpr of the real functions -> exact arithmetic over Q(i)(x) -> ring identities against Fock-space spec functions"),
+             dict(name="symx", path="vc/symx.py", serves_properties=[c["property_id"] for c in checks if "symx" in c["engine"]],
+                  kind_free_text="Engine C: the real NumPy function's code object executed path-wise by CPython over symbolic reals (object arrays of z3 terms, decision replay) -> z3 nonlinear-real verification conditions per path")],
     checks=checks, not_applicable=na,
     notes="Contract-based deductive verification; see DESIGN.md. Exit codes: 0 held, 1 violation, 2 undecided, 3 checker crash.")
 json.dump(man, open("MANIFEST.json", "w"), indent=1)
